@@ -228,6 +228,12 @@ theorem C17_diag_norms_dense (d : Fin n → ℝ) (hn : 0 < n) (o : Ord)
   · obtain ⟨m, hm⟩ := lmin_isSome hne
     simp only [matNorm, absCols_diagonal_sums, hm, Option.map_some, diagNorm_neg_one, diagNorm_ninf_ok d m hm]
 
+/-- A complex diagonal: `Diagonal.norm` is the same function of the moduli `|dᵢ|` as for the real
+    diagonal `(|d₁|,…,|dₙ|)` (to which `diag d` is unitarily equivalent), for every order. -/
+theorem C17_diag_norms_complex (z : Fin n → ℂ) (o : Ord) :
+    diagNormC o (List.ofFn fun i => ((z i).re, (z i).im)) = diagNorm o (List.ofFn fun i => ‖z i‖) :=
+  diagNormC_eq z o
+
 /-- any other `ord` (0, 3, unknown strings, …) is rejected with `ValueError` by both classes -/
 theorem C17_diag_norms_reject (d : List ℝ) (ac sN nN : ℝ) (k : Int) (hk : k ≠ 1 ∧ k ≠ 2 ∧ k ≠ -1 ∧ k ≠ -2) :
     diagNorm (.int k) d = .error "value" ∧ diagNorm .other d = .error "value" ∧
